@@ -1425,8 +1425,11 @@ class Arm(Robot):
         """
         curpos = self._end_effector_pos_global.copy()
         curth = self._theta.copy()
+        tool_home_local = fsr.globalToLocal(self._base_pos_global, self._end_effector_home)
         self.initialize(new_base_pos_global, self.original_screw_list.copy(),
             self._end_effector_home_local, self.original_joint_poses_home)
+        self._end_effector_home = fsr.localToGlobal(new_base_pos_global, tool_home_local)
+        self._helper_determine_eef_to_last_joint()
         if stationary == False:
             self.FK(self._theta)
         else:
